@@ -674,8 +674,8 @@ def _coverage(stats, case, text, acc, sers):
 # signatures: symptom + essential ingredients (one-step counterfactuals on the abstract case)
 
 
-def _shows(case, clause, symptom=None):
-    return any(v.clause == clause and (symptom is None or v.symptom == symptom) for v in raw(case))
+def _shows(case, clause, symptom=None, level=2):
+    return any(v.clause == clause and (symptom is None or v.symptom == symptom) for v in raw(case, None, level))
 
 
 def _int_class(i):
@@ -686,6 +686,7 @@ def essential(case, v):
     """ingredients of the witness whose neutralisation makes this (clause, symptom) disappear"""
     family = case['family']
     pinned = dict(case, prefs=v.prefs if v.prefs is not None else PREFS[family][0])
+    level = 2 if v.path == 'sheet' else 0  # a violation of the plain entry point does not need the sheet to be re-examined
     ess = []
     if family == 'number':
         c = case['comps'][0]
@@ -700,11 +701,11 @@ def essential(case, v):
         if c[4]:
             variants.append((f'unit={c[4]}', ['num', c[1], c[2], c[3], '']))
         for label, comp in variants:
-            if not _shows(dict(pinned, comps=[comp]), v.clause, v.symptom):
+            if not _shows(dict(pinned, comps=[comp]), v.clause, v.symptom, level):
                 ess.append(label)
         for k, val in sorted((v.prefs or {}).items()):
             if val != getattr(cssutils.serialize.Preferences(), k):
-                if not _shows(dict(pinned, prefs={}), v.clause, v.symptom):
+                if not _shows(dict(pinned, prefs={}), v.clause, v.symptom, level):
                     ess.append(f'{k}={val}')
     elif family in ('string', 'url'):
         # roles of characters (all characters of a role replaced by "a" at once) and quoting forms without which no
@@ -716,7 +717,7 @@ def essential(case, v):
             if not any(ROLE[ch] == role for ch in content):
                 continue
             neutral = ''.join('a' if ROLE[ch] == role else ch for ch in content)
-            if not _shows(dict(pinned, comps=[[c[0], neutral, c[2]]]), v.clause):
+            if not _shows(dict(pinned, comps=[[c[0], neutral, c[2]]]), v.clause, None, level):
                 roles.append(role)
         if not roles and any(ROLE[ch] != 'plain' for ch in content):
             # every variant with one role neutralised still violates the clause: two overlapping causes.  Each of those
@@ -726,7 +727,7 @@ def essential(case, v):
         ess.append('needs=' + ('+'.join(roles) if roles else 'nothing'))
         forms = STR_FORMS if family == 'string' else URL_FORMS
         others = [f for f in forms if f != c[2]]
-        if all(_shows(dict(pinned, comps=[[c[0], content, f]]), v.clause) for f in others):
+        if all(_shows(dict(pinned, comps=[[c[0], content, f]]), v.clause, None, level) for f in others):
             ess.append('form=any')
         else:
             ess.append(f'form={c[2]}')
